@@ -14,7 +14,8 @@ RULE = ("texts with every kind of sensitive item incl. $6$/$1$/$9$ secrets and w
 
 PRELUDE = r"""
 import sys
-sys.path.insert(0, '/repo')
+import os
+sys.path.insert(0, os.environ.get('NETCONAN_REPO', '/repo'))
 from netconan.anonymize_files import FileAnonymizer
 from netconan.ip_anonymization import IpAnonymizer
 from netconan.sensitive_item_removal import SensitiveWordAnonymizer
@@ -69,7 +70,8 @@ def run(ctx):
     # no salt given: the generated salt is reported and reproduces the output
     code = r"""
 import sys, io, json, logging
-sys.path.insert(0, '/repo')
+import os
+sys.path.insert(0, os.environ.get('NETCONAN_REPO', '/repo'))
 from netconan.anonymize_files import FileAnonymizer
 recs = []
 class H(logging.Handler):
